@@ -144,6 +144,7 @@ pub static RE0: std::sync::LazyLock<regex::Regex> = std::sync::LazyLock::new(|| 
 pub static RE1: std::sync::LazyLock<regex::Regex> = std::sync::LazyLock::new(|| regex::Regex::new("@").unwrap());
 pub static RE2: std::sync::LazyLock<regex::Regex> = std::sync::LazyLock::new(|| regex::Regex::new("^.{2,4}$").unwrap());
 pub static RE3: std::sync::LazyLock<regex::Regex> = std::sync::LazyLock::new(|| regex::Regex::new("b{2}").unwrap());
+pub static RE5: std::sync::LazyLock<regex::Regex> = std::sync::LazyLock::new(|| regex::RegexBuilder::new("^k[0-9]+$").case_insensitive(true).build().unwrap());
 pub static RE4: std::sync::LazyLock<regex::Regex> = std::sync::LazyLock::new(|| regex::Regex::new("(?i)^k[0-9]+$").unwrap());
 '''
 
